@@ -11,3 +11,5 @@ INVARIANT ScaleOK
 INVARIANT WeightOK
 INVARIANT Drift_Refusal
 INVARIANT Drift_ListRepr
+INVARIANT Drift_MapRepr
+INVARIANT Drift_StateRepr
